@@ -64,12 +64,12 @@ class TamperSocket(rig.LoopSocket):
         return rig.LoopSocket.recv(self, n)
 
 
-def make_failure(orig, status, reason, message):
+def make_failure(orig, status, reason, message, keep_operation=True):
     tree = T.decode(orig, strict=False)
     items = []
     for k in tree[2]:
         if k[0] == T.T_BATCH_ITEM:
-            kids = [c for c in k[2] if c[0] in (T.T_OPERATION, T.T_UNIQUE_BATCH_ITEM_ID)]
+            kids = [c for c in k[2] if c[0] in ((T.T_OPERATION, T.T_UNIQUE_BATCH_ITEM_ID) if keep_operation else ())]
             kids.append((T.T_RESULT_STATUS, T.ENUM, status))
             kids.append((T.T_RESULT_REASON, T.ENUM, reason))
             if message is not None:
@@ -90,6 +90,19 @@ def setup_env(srv, rng):
     env['cert'] = store.register(srv, 'cert', 'alice', rng, names=['c19-cert'])
     env['split'] = store.register(srv, 'split', 'alice', rng, names=['c19-split'])
     env['pub'] = store.register(srv, 'pub', 'alice', rng, state='active', masks=[M.VERIFY], names=['c19-pub'])
+    # a key registered already wrapped, with different parameters in the two key-information blocks
+    from kmip.core import objects as co
+    kwd = co.KeyWrappingData(
+        wrapping_method=E.WrappingMethod.ENCRYPT_THEN_MAC_SIGN,
+        encryption_key_information=co.EncryptionKeyInformation(unique_identifier='100', cryptographic_parameters=cparams(
+            block_cipher_mode=E.BlockCipherMode.NIST_KEY_WRAP, cryptographic_algorithm=E.CryptographicAlgorithm.AES)),
+        mac_signature_key_information=co.MACSignatureKeyInformation(unique_identifier='101', cryptographic_parameters=cparams(
+            hashing_algorithm=E.HashingAlgorithm.SHA_512, cryptographic_algorithm=E.CryptographicAlgorithm.HMAC_SHA512,
+            padding_method=E.PaddingMethod.PSS)),
+        mac_signature=b'\x01\x02\x03\x04', iv_counter_nonce=b'\x05' * 8, encoding_option=E.EncodingOption.NO_ENCODING)
+    r = srv.send([op_register('sym', secret_sym(bytes(range(24)), E.CryptographicAlgorithm.AES, 192, E.KeyFormatType.RAW, kwd),
+                              sym_attrs(E.CryptographicAlgorithm.AES, 192, [M.ENCRYPT], names=['c19-wrapped']))], ('alice', None))
+    env['wrapped'] = store.Obj(r.uid(), 'sym', 'alice', 'default', 'pre', []) if r.error is None and r.ok() else None
     env['priv'] = store.register(srv, 'priv', 'alice', rng, state='active', masks=[M.SIGN], names=['c19-priv'])
     return env
 
@@ -152,6 +165,37 @@ def calls(rng, env, version):
         return None if got == want else 'returned object value %r..., payload carries %r...' % (
             (got or b'')[:12], (want or b'')[:12])
     out.append(('get', lambda c: c.get(rng.choice((uid_any, '99999'))), get_check))
+
+    def wrapped_check(res, p):
+        problem = get_check(res, p)
+        if problem:
+            return problem
+        kwd = getattr(res, 'key_wrapping_data', None) or {}
+        wd = None
+        for _, it in T.walk(p):
+            if it[0] == 0x420046:
+                wd = it
+        if wd is None:
+            return None if not kwd else 'client reports wrapping data %r, the payload has none' % (kwd,)
+
+        def cp_of(info_tag):
+            info = T.kid(wd, info_tag)
+            cp = T.kid(info, 0x42002B) if info else None
+            return {k[0]: k[2] for k in cp[2]} if cp else {}
+        names = {0x420011: 'block_cipher_mode', 0x42005F: 'padding_method', 0x420038: 'hashing_algorithm',
+                 0x420028: 'cryptographic_algorithm'}
+        for info_tag, key in ((0x420036, 'encryption_key_information'), (0x42004E, 'mac_signature_key_information')):
+            wire = cp_of(info_tag)
+            got = (kwd.get(key) or {}).get('cryptographic_parameters') or {}
+            for tag, nm in names.items():
+                w = wire.get(tag)
+                g = got.get(nm)
+                g = getattr(g, 'value', g)
+                if w != g:
+                    return '%s.cryptographic_parameters.%s: client reports %r, the payload carries %r' % (key, nm, g, w)
+        return None
+    if env.get('wrapped'):
+        out.append(('get_wrapped_key', lambda c: c.get(env['wrapped'].uid), wrapped_check))
 
     def ga_check(res, p):
         uid, attrs_ = res
@@ -253,7 +297,11 @@ def run_case(ctx, case):
                         planned['reason'] = reasons[(rnd * 7 + rng.randrange(len(reasons))) % len(reasons)]
                         planned['message'] = None if mode == 'fail-nomsg' else rng.choice(
                             ('', 'x', 'denied', 'm' * 7, 'm' * 8, 'm' * 200, 'with "quotes" and {braces}', 'text %s %d'))
-                        sock.transform = lambda o, pl=planned: make_failure(o, pl['status'].value, pl['reason'].value, pl['message'])
+                        # a message-level rejection (authentication, unsupported version, unparsable request) carries
+                        # no Operation in its single item
+                        planned['keep_op'] = rng.random() < 0.75
+                        sock.transform = lambda o, pl=planned: make_failure(o, pl['status'].value, pl['reason'].value,
+                                                                           pl['message'], pl['keep_op'])
                     elif mode == 'truncate':
                         def trunc(o):
                             cut = rng.choice((0, 1, 4, 7, 8, 9, 12, len(o) // 2, len(o) - 9, len(o) - 8, len(o) - 1))
@@ -305,7 +353,7 @@ def run_case(ctx, case):
                         continue
                     if it['status'] != 0:
                         ctx.count('failures_compared')
-                        cls = 'fail:%s' % ('nomsg' if it['message'] is None else 'msg')
+                        cls = 'fail:%s%s' % ('nomsg' if it['message'] is None else 'msg', '' if it['operation'] is not None else ':noop')
                         ctx.cell(name, vname, cls, type(raised).__name__ if raised else 'returned')
                         if raised is None and name.startswith('proxy.'):
                             try:
@@ -328,7 +376,8 @@ def run_case(ctx, case):
                                               % (got, want), detail)
                         elif not isinstance(raised, pie_exc.KmipOperationFailure):
                             ctx.violation('failure|nomsg:%s' % type(raised).__name__ if it['message'] is None else
-                                          '%s|failure|msg:%s' % (name, type(raised).__name__),
+                                          '%s|failure|msg%s:%s' % (name, '' if it['operation'] is not None else '-no-operation-field',
+                                                                   type(raised).__name__),
                                           '%s raised %s (%s) instead of an operation failure for status %s reason %s message %r'
                                           % (name, type(raised).__name__, str(raised)[:120], it['status'], it['reason'], it['message']), detail)
                         else:
